@@ -188,6 +188,9 @@ def gen_definition(rng, i, classes, colnames):
     k = rng.randint(1, 6)
     ngran = 0 if i % 2 == 0 else rng.randint(1, 3)
     kinds = [rng.choice(["mean", "mean_cov", "ratio", "ratio_cov", "sr", "caggr"]) for _ in range(k)]
+    if i % 6 == 4:
+        # every aggregated metric needs only the per-variant count: still ONE aggregate query, no distinct-variants query
+        kinds = ["sr"] * rng.randint(1, 2) + ["ccount"] * rng.randint(0, 1)
     kinds += [rng.choice(["cgran", "quantile", "bootstrap", "cboth"]) for _ in range(ngran)]
     rng.shuffle(kinds)
     for j, kind in enumerate(kinds):
@@ -203,6 +206,8 @@ def gen_definition(rng, i, classes, colnames):
             metrics[name] = tt.RatioOfMeans(cs[0], cs[1], cs[2], cs[3])
         elif kind == "sr":
             metrics[name] = tt.SampleRatio()
+        elif kind == "ccount":
+            metrics[name] = CustomAggr(AggrCols(has_count=True))
         elif kind == "caggr":
             metrics[name] = CustomAggr(AggrCols(
                 has_count=rng.random() < 0.5, mean_cols=tuple(cs[:rng.randint(1, 3)]), var_cols=tuple(cs[:rng.randint(0, 2)]),
